@@ -94,9 +94,11 @@ def gen_fixture(s, indent="", in_class=False, name=None, deps=None):
         plist = plist[:cut] + ["*"] + plist[cut:]
     params += plist
     # body shape
-    yield_kind = rng.choice(["none", "none", "plain", "if", "for", "while", "with", "async_with", "async_for", "try", "except", "else", "finally", "nested_if_with", "after_try", "after_if"])
+    yield_kind = rng.choice(["none", "none", "plain", "if", "for", "while", "with", "async_with", "async_for", "try", "except", "else", "finally", "nested_if_with", "after_try", "after_if", "yield_from_multiline", "yield_multiline"])
     if yield_kind in ("async_with", "async_for") and not is_async:
         is_async = True
+    if yield_kind == "yield_from_multiline" and is_async:
+        yield_kind = "yield_multiline"       # `yield from` is not allowed in an async generator
     is_gen = yield_kind != "none"
     s.features.add("yield:" + yield_kind + (":async" if is_async else ""))
     ret = ""
@@ -174,6 +176,11 @@ def gen_fixture(s, indent="", in_class=False, name=None, deps=None):
         s.emit(f"{bi}try:\n{bi}    c = connect()\n{bi}except OSError:\n{bi}    c = None\n{bi}{y}")
     elif yield_kind == "after_if":
         s.emit(f"{bi}if x:\n{bi}    c = 1\n{bi}for q in ():\n{bi}    pass\n{bi}with a:\n{bi}    pass\n{bi}{y}")
+    elif yield_kind == "yield_from_multiline":
+        # the recorded line is the line of the `yield` keyword, not of the operand
+        s.emit(f"{bi}yield from (\n{bi}    make_items({k})\n{bi})")
+    elif yield_kind == "yield_multiline":
+        s.emit(f"{bi}yield (\n{bi}    {k}\n{bi})\n{bi}x = 3")
     elif yield_kind == "nested_if_with":
         s.emit(f"{bi}if x:\n{bi}    with a as b:\n{bi}        for q in b:\n{bi}            {y}")
     if rng.random() < 0.15:
@@ -299,7 +306,19 @@ def gen_source(rng, unicode_noise=0.0, crlf=None, tabs=None, plain_strings=True,
             gen_test(s, plain_strings=plain_strings)
         elif r < 0.8:
             k = s.k()
-            s.emit(f"asg{k} = pytest.fixture()(_helper)" if rng.random() < 0.5 else f"asg{k} = pytest.fixture(scope=\"module\")(other.thing)")
+            rr = rng.random()
+            if rr < 0.35:
+                s.emit(f"asg{k} = pytest.fixture()(_helper)")
+            elif rr < 0.6:
+                s.emit(f"asg{k} = pytest.fixture(scope=\"module\")(other.thing)")
+            elif rr < 0.85:
+                # chained targets: pytest sees one fixture per target, each with its own name token
+                s.emit(f"asg{k} = asg{k}_alias = pytest.fixture()(_helper)")
+                s.fixture_names.append(f"asg{k}_alias")
+                s.features.add("assignment_fixture:chained")
+            else:
+                s.emit(f"(asg{k}) = pytest.fixture()(_helper)")
+                s.features.add("assignment_fixture:parenthesised")
             s.fixture_names.append(f"asg{k}")
             s.features.add("assignment_fixture")
             s.emit("")
